@@ -1,6 +1,6 @@
 """C02 lookups on a reader: get / get_prefix / get_range return exactly the matching entries."""
 import readercommon as rc
-from C03 import T21, T22, TPF, TRS, with_q
+from C03 import T21, T22, TPF, TRS, TLG, TL1, TL2, with_q
 
 KN = {1: "get", 2: "prefix", 3: "range"}
 S21 = dict(kls=[1, 1], vls=[1, 1], blk=[1, 1], no_trailer=True)
@@ -59,6 +59,16 @@ def build(tier, seed):
                     first(tag, spec, k, ql, 2 if k == 3 else 1, n=3)    # 6 entries: full drains exceed 14 GB
                 else:
                     drain(tag, spec, k, ql, 2 if k == 3 else 1)
+    # 130/131-byte keys and a 128-byte symbolic value (two-byte length varints); concrete queries (a symbolic
+    # query over 130-byte keys ran out of 14 GB)
+    for k in (1, 2, 3):
+        for cq, cq2 in ([(b"a", b"b")] if quick else [(b"a", b"b"), (b"ab", b"c"), (b"b", b"d"), (b"", b"a")]):
+            qs.append(rc.rq("long_TLG_%s_%s_%s" % (KN[k], cq.hex() or "empty", cq2.hex()), "h_drain", with_q(TLG, cq, cq2), kind=k, witness=False,
+                            sample={"query": "concrete %r%s" % (cq, (" .. %r" % cq2) if k == 3 else "")}))
+    for tag, spec, cq in (("TL1", TL1, b"kk"), ("TL2", TL2, b"k")):
+        for k in ((1, 2) if tag == "TL1" else (2,)):
+            qs.append(rc.rq("long_%s_%s" % (tag, KN[k]), "h_drain", with_q(spec, cq, cq), kind=k, witness=(k == 2 and tag == "TL1"),
+                            sample={"query": "concrete %r" % cq}))
     # queries beyond the last index key: the constructor returns NULL / an empty iterator
     for k in (1, 2, 3):
         for cq in ([b"z"] if quick else [b"z", b"i", b"h\x00", b"\xff\xff"]):
@@ -67,7 +77,7 @@ def build(tier, seed):
                             extra={"NULLCASE": None}, sample={"query": "concrete %r (> every index key)" % cq}))
     meta = {
         "functions": rc.FUNCS, "units": ["mtbl/reader.c"] + rc.UNITS,
-        "bounds": "tables of <= 3 blocks / <= 5 entries, keys <= 2 bytes (incl. the empty key), values <= 1 byte; query / prefix / range bounds of 0..2 symbolic bytes; for the symbolic tables every key, value and separator byte is a solver variable as well; full result list drained plus two further calls (failure is sticky)",
+        "bounds": "tables of <= 3 blocks / <= 5 entries, keys <= 2 bytes (incl. the empty key), values <= 1 byte, plus one concrete-keyed table with 130/131-byte keys and index keys and a 128-byte symbolic value (concrete queries); query / prefix / range bounds of 0..2 symbolic bytes; for the symbolic tables every key, value and separator byte is a solver variable as well; full result list drained plus two further calls (failure is sticky)",
         "outside": "larger tables, keys or queries > 2 bytes; queries beyond the last index key are checked for concrete queries only (the constructor's give-up path is asserted unreachable for all others); reader struct constructed white-box (init: C19/C11)",
         "stubs": rc.STUBS + ["free() as seen by reader.c: inside a lookup constructor the give-up path is asserted unreachable and cut (query assumed <= last index key)"],
         "assumptions": ["separators lie in the legal interval [last key of block, first key of next block)"],
